@@ -75,6 +75,7 @@ def run(tier, rep, ev):
             via = "shutil" if (i % 7 == 0 and not deref) else "api"
             cases.append({"nodes": t, "deref": deref, "seed": i, "via": via, "arcname": "given/name" if (i % 5 == 0 and via == "api") else None,
                           "arcroot": (i % 4 == 3 and via == "api"),
+                          "spelling": ["plain", "dot", "abs", "slash", "climb", "inner"][(i // 4) % 6],
                           "password": "pw" if i % 11 == 0 and via == "api" else None, "wd": os.path.join(base, f"t{len(cases)}")})
     outs = sandbox.run_cases(trees.run_case, cases, timeout=60, nproc=16)
     traces, origins = [], []
